@@ -1,11 +1,15 @@
 """C05 - everything left introspectable is bindable and every reference resolves.
 
 1. TLC model-checks tla/Introspect.tla (the nine walks of IntrospectablePass.validate over every small
-   namespace graph / flag assignment / namespace order): implementation layer => Closed, modulo the
-   shapes recorded as findings (NoUnknownViolation); a witness configuration re-derives the known
-   counterexample as a TLC error trace.
+   namespace graph / flag assignment / namespace order): implementation layer => Closed.  Under C
+   declaration order no violation is reachable; under use-before-declaration orders (which no C header
+   can produce) the known shapes are (NoUnknownViolation); witness configurations re-derive one
+   counterexample per shape as a TLC error trace, and the defect fixed by /repo 8003e8e in the what-if
+   variant AliasRecheck = FALSE.
 2. S->C: every violating final case TLC exports (without padding nodes), a sample of the closed ones,
-   the witness and seeded random graphs beyond the exhaustive bound are rendered as real symbol sets
+   the witnesses, seeded random graphs beyond the exhaustive bound and a sweep over cross-reference
+   features (array lengths, closures, rename-to, accessors, invokers, containers, exotic C types;
+   harness/c05proj.py EXTRA_VARIANTS) are rendered as real symbol sets
    (harness/c05proj.render + harness/scan symgen), scanned by the REAL pipeline, flattened
    (c05proj.project: structure only) and judged by TLC (tla/IntrospectTrace.tla: Closed of
    tla/IntrospectProp.tla; DRIFT = the code no longer follows the implementation-shaped layer).
@@ -13,24 +17,33 @@
 Python never decides: it renders, runs, flattens and relays TLC's rejections.
 """
 import glob, json, os, re, sys
+from concurrent.futures import ThreadPoolExecutor
 
-from ..common import Check, MachineryError, main_wrapper, REPO, VERIF, tla_to_py
+from ..common import Check, MachineryError, main_wrapper, REPO, VERIF, NCPU, tla_to_py
 
 PID = 'C05'
 MC_QUICK = [('q1', 'N=3 alias/callback/function, every order'),
             ('q2', 'N=2 with (skip) on nodes and values, GList containers'),
-            ('q3', 'N=2 with a GObject class: property/setter, vfunc/invoker, signal')]
+            ('q3', 'N=2 with a GObject class: property/setter, vfunc/invoker, signal, cross-scope rename-to'),
+            ('q4', 'N=3 record/callback/alias/function with methods of records, C declaration order')]
 MC_THOROUGH = [('t1', 'N=4 alias/callback/function in C declaration order'),
                ('t2', 'N=4 every order, chain alphabet'),
                ('t3', 'N=5 alias/callback chains in C declaration order'),
-               ('t4', 'N=3 all kinds and flags'),
+               ('t4', 'N=2 all kinds, all flags (skip on nodes and values, GList, return sites, moved-to copies)'),
                ('t5', 'N=3 full type alphabet'),
+               ('t6', 'N=3 with (skip) on nodes and values: skip propagation chains'),
+               ('t7', 'N=3 with GObject classes'),
                ('perm3', 'N=3 all 6 namespace orders explicitly (symmetry argument)')]
 STEP = ('step', 'N=2 one action per walk, both orders, flags only go down')
-WITNESS_QUICK = [('w_alias_cb', 'alias-to-nonintrospectable-callback')]
-WITNESS_THOROUGH = [('w_alias_alias', 'alias-to-nonintrospectable-alias@use-before-declaration'),
-                    ('w_fn_cb', 'function-to-nonintrospectable-callback@use-before-declaration'),
-                    ('w_cb_cb', 'callback-to-nonintrospectable-callback@use-before-declaration')]
+# (cfg, shape, what-if variant or False): a what-if witness re-derives a defect that has been fixed in /repo from the
+# implementation-shaped layer with the corresponding constant switched back; the current code must not reproduce it
+WITNESS_QUICK = [('w_alias_cb', 'alias-to-nonintrospectable-callback', 'AliasRecheck = FALSE, the walks before /repo 8003e8e'),
+                 ('w_rename', 'shadows-not-mutual / shadowed-by-not-mutual', 'RenameScopeCheck = FALSE, rename-to before /repo 207651c'),
+                 ('w_fn_alias', 'function-to-nonintrospectable-alias@use-before-declaration', False)]
+WITNESS_THOROUGH = [('w_one_walk', 'method-to-nonintrospectable-callback', 'CallableWalks = 1, a single callable-analysis walk'),
+                    ('w_alias_alias', 'alias-to-nonintrospectable-alias@use-before-declaration', False),
+                    ('w_fn_cb', 'function-to-nonintrospectable-callback@use-before-declaration', False),
+                    ('w_cb_cb', 'callback-to-nonintrospectable-callback@use-before-declaration', False)]
 PARTIAL = ['GLib', 'GObject', 'Gio']      # harness/data/gir are stubs of these namespaces
 NOSITE = dict(role='none', cont='none', tk='fund', tgt=0, xfer=True, scope=False, vskip=False)
 
@@ -96,7 +109,7 @@ def random_case(rng, n):
     nodes = []
     for i in range(1, n + 1):
         k = kinds[i - 1]
-        nd = dict(kind=k, nskip=rng.random() < 0.12, moved=False, site=dict(NOSITE), psite=dict(NOSITE), ssite=dict(NOSITE))
+        nd = dict(kind=k, nskip=rng.random() < 0.12, moved=False, ren=0, host=0, site=dict(NOSITE), psite=dict(NOSITE), ssite=dict(NOSITE))
         if k == 'alias':
             nd['site'] = site(i, 'target', ['fund', 'valist', 'longlong', 'unres', 'foreign', 'node'], False)
         elif k in ('callback', 'function'):
@@ -105,6 +118,12 @@ def random_case(rng, n):
             else:
                 nd['site'] = site(i, 'param', ['fund', 'valist', 'longlong', 'longdouble', 'varargs', 'unres', 'foreign', 'node'], True)
             nd['moved'] = k == 'function' and rng.random() < 0.1
+            if k == 'function' and ncls and rng.random() < 0.15:
+                nd['ren'] = n - rng.randrange(ncls)
+            recs = [j for j in range(1, i) if kinds[j - 1] == 'record'
+                    and sum(1 for x in nodes if x.get('host') == j) < 2]      # (the model follows two methods per record)
+            if k == 'function' and recs and rng.random() < 0.35:        # a method of an earlier record
+                nd['host'], nd['moved'], nd['ren'] = rng.choice(recs), False, 0
         elif k == 'record':
             nd['site'] = site(i, 'field', ['fund', 'longlong', 'unres', 'foreign', 'node'], True)
         elif k == 'class':
@@ -114,7 +133,48 @@ def random_case(rng, n):
             ss['role'] = 'param'
             nd['ssite'] = ss
         nodes.append(nd)
-    return dict(nodes=nodes, order=list(range(1, n + 1)))
+    case = dict(nodes=nodes, order=list(range(1, n + 1)))
+    case['extras'] = [random_extra(rng, kinds) for _ in range(rng.choice([0, 0, 1, 1, 2, 3]))]
+    return case
+
+
+def random_extra(rng, kinds):
+    """a cross-reference feature (schema: harness/c05proj.py EXTRA_VARIANTS) attached to the graph"""
+    from .. import c05proj as P
+    k = rng.choice(['arrlen', 'fieldarr', 'clos', 'clos', 'shadow', 'shadow', 'klass', 'cont', 'cont', 'exotic'])
+    recs = [i + 1 for i, x in enumerate(kinds) if x == 'record']
+    tdefs = [i + 1 for i, x in enumerate(kinds) if x not in ('function', )]
+    return dict(kind=k, v=rng.choice(P.EXTRA_VARIANTS[k]), tgt=rng.choice(tdefs + [0]) if tdefs else 0,
+                host=rng.choice(recs + [0, 0]) if recs else 0)
+
+
+def sweep_cases(full):
+    """every variant of every extra over a fixed 4-node base graph: record R1, callback Cb2, alias A3 of the
+    callback, enum E4.  Each variant is rendered (A) as a top-level declaration over the plain base and (B) as
+    a method of the record (where that applies) over a base whose callback is not introspectable - for a reason
+    found by the first pass (varargs) or only by the callable-analysis walks (va_list, long long), so that the
+    alias and whatever uses them have to be demoted by the later walks.  full: the whole product instead."""
+    from .. import c05proj as P
+    out = []
+    i = 0
+    bads = ['varargs', 'valist', 'longlong']
+    for k in sorted(P.EXTRA_VARIANTS):
+        for v in P.EXTRA_VARIANTS[k]:
+            combos = [(h, b, t) for h in (0, 1) for b in ['fund'] + bads for t in (2, 3, 1, 4, 0)] if full else \
+                     [(0, 'fund', [3, 2, 1, 4, 0][i % 5]), (1, bads[i % 3], [2, 3][(i // 3) % 2])]
+            if full and (k in ('klass', 'exotic', 'fieldarr', 'shadow') or (k == 'cont' and ':node:' not in v)):
+                combos = [c for c in combos if c[2] == 2]                     # no type slot: the target does not matter
+            for host, bad, tgt in combos:
+                site = lambda role, tk, t=0: dict(role=role, cont='none', tk=tk, tgt=t, xfer=True, scope=False, vskip=False)
+                nodes = [dict(kind='record', site=site('field', 'fund')),
+                         dict(kind='callback', site=site('param', bad)),
+                         dict(kind='alias', site=site('target', 'node', 2)),
+                         dict(kind='enum', site=dict(NOSITE))]
+                for nd in nodes:
+                    nd.update(nskip=False, moved=False, ren=0, host=0, psite=dict(NOSITE), ssite=dict(NOSITE))
+                out.append(dict(nodes=nodes, order=[1, 2, 3, 4], extras=[dict(kind=k, v=v, tgt=tgt, host=host)]))
+            i += 1
+    return out
 
 
 def brief(case):
@@ -122,10 +182,54 @@ def brief(case):
     for i, n in enumerate(case['nodes']):
         s = n['site']
         t = ('list<%s>' % s['tk'] if s['cont'] == 'list' else s['tk']) + (str(s['tgt']) if s['tgt'] else '')
-        out.append('%d:%s%s(%s %s%s%s%s)' % (i + 1, n['kind'], '[skip]' if n['nskip'] else '', s['role'], t,
+        out.append('%d:%s%s%s%s(%s %s%s%s%s)' % (i + 1, n['kind'], '[skip]' if n['nskip'] else '', '[moved]' if n.get('moved') else '',
+                                                 (('[rename-to %d.set_p]' % n['ren']) if n.get('ren') else '') + (('[method of %d]' % n['host']) if n.get('host') else ''),
+                                                 s['role'], t,
                                              ' scope' if s['scope'] else '', '' if s['xfer'] else ' noxfer',
                                              ' vskip' if s['vskip'] else ''))
-    return ' '.join(out) + ' order=%s' % case['order']
+    ex = ''.join(' +%s:%s%s%s' % (x['kind'], x['v'], ('@r%d' % x['host']) if x.get('host') else '',
+                                  ('->%d' % x['tgt']) if x.get('tgt') else '') for x in case.get('extras', []))
+    return ' '.join(out) + ' order=%s' % case['order'] + ex
+
+
+# ---------------------------------------------------------------------------------- TLC runs, side by side
+def mc_many(ck, jobs, concurrent):
+    """jobs: [dict(cfg, label, coverage, expect_ok, workers, heap)].  Runs TLC on IntrospectMC for all of them,
+    `concurrent` at a time (the configurations are small: one JVM start each dominates when run one after the
+    other), then does the bookkeeping of Check.tlc_mc for each in job order.  -> {cfg: TLCResult}"""
+    def one(j):
+        extra = ['-coverage', '1'] if j.get('coverage') else []
+        env = dict(JAVA_TOOL_OPTIONS='-Xmx%s -XX:ParallelGCThreads=%d' % (j.get('heap', '3g'), max(1, min(NCPU, j['workers']) // 2 + 1)))
+        return ck._tlc('IntrospectMC.tla', 'Introspect_%s.cfg' % j['cfg'], extra, env, j.get('timeout', 3000), j['workers'])
+    with ThreadPoolExecutor(max_workers=concurrent) as ex:
+        results = list(ex.map(one, jobs))
+    out = {}
+    for j, r in zip(jobs, results):
+        cfg = 'Introspect_%s.cfg' % j['cfg']
+        ck.cov['states'] += r['distinct']
+        ck.cov['transitions'] += r['generated']
+        ck.cov['tlc_runs'].append(dict(module='IntrospectMC', cfg=cfg, label=j['label'], generated=r['generated'],
+                                       distinct=r['distinct'], depth=r['depth'], wall_s=r['wall_s'], ok=r['ok'], mode='exhaustive',
+                                       violated=r.get('violated'),
+                                       actions_never_taken=sorted(a for a, (d, g) in r['coverage'].items()
+                                                                  if g == 0 and a not in j.get('disabled_actions', ()))))
+        if j.get('expect_ok', True) and not r['ok']:
+            raise MachineryError('TLC on IntrospectMC/%s did not complete cleanly: %s\n%s' % (cfg, r.get('error'), r['out'][-3000:]))
+        out[j['cfg']] = r
+    return out
+
+
+WALK_ACTIONS = ['AliasAnalysis', 'SkipPropagation', 'AnalyzeNode', 'CallableAnalysis1', 'CallableAnalysis2', 'PropertyAnalysis',
+                'Pass3', 'BackcompatRemoval', 'SymbolCollisions', 'Build', 'StartWalks', 'Write']
+CORE = ['UsesResolve', 'UsesIntrospectable', 'NoVarargs', 'NoLongLong', 'TransferStated', 'ScopeStated', 'ElementTyped',
+        'IndexInRange', 'TypeStructMutual', 'AccessorAgree', 'AccessorMutual', 'InvokerIsMethod', 'ShadowsMutual']
+
+
+def features_of(case, element):
+    """the extras (kind:variant) whose declarations the GIR path `element` belongs to (names carry x<index>)"""
+    label = lambda x: 'klass:' + x['v'].split(':')[1] if x['kind'] == 'klass' else '%s:%s' % (x['kind'], x['v'])
+    return sorted(set(label(x) for i, x in enumerate(case.get('extras', []), 1)
+                      if re.search(r'(?<![0-9A-Za-z])[xX]%d(?![0-9])' % i, element)))
 
 
 # ---------------------------------------------------------------------------------- the check
@@ -137,48 +241,95 @@ def run():
     ck.assumptions += [
         'symgen (harness/scan.py) stands in for the C lexer/parser: symbols are fed to Transformer.parse() in declaration '
         'order; generated inputs that are judged declare every typedef name before its use, as any C translation unit does '
-        '(cases TLC finds under other orders are replayed as diagnostics only)',
+        '(the lexer only knows a typedef name after its declaration; cases TLC finds under other orders are replayed as '
+        'diagnostics only)',
         'dependency namespaces GLib/GObject/Gio are the synthetic stubs of harness/data/gir: a name they lack is counted as '
         'not judged, never as unresolved',
         '"not marked introspectable=0" means neither the element nor an enclosing element is marked; values carrying skip="1" '
         'are exempt from the per-value obligations (varargs, transfer, scope, element type) - counted as LiteralOnly',
         'a gpointer element type of a list/array parameter or return value counts as "no element type stated" '
-        '(the writer emits that placeholder); fields and properties only need the child type',
-        'model: one parameter or return value per callable, one field per record, one property/method/vfunc/signal per class',
+        '(the writer emits that placeholder); fields, properties and alias targets only need the child type; a GHashTable '
+        'is neither a list nor an array (it needs its two children, their names are not judged)',
+        'closure/destroy/length indices count <parameter> elements (the instance parameter has no index); a field array length '
+        'counts the <field>/<record>/<union> children of the enclosing compound',
+        'setter/getter agreement is demanded from the property towards the method it names (AccessorAgree, when the type has '
+        'such a method) and from a method towards the property it names (AccessorMutual); the latter only on generated inputs, '
+        'whose accessor attributes are known to be inferred (the renderer writes no accessor annotations) - in a repository '
+        'file one cannot tell an inferred glib:get-property from an annotated one',
+        'model: one parameter or return value per callable, one field per record, one property/method/vfunc/signal per class; '
+        'the cross-reference features (arrays with lengths, closures, rename-to, accessor sets, containers, exotic C types) '
+        'are generated inputs outside the implementation-shaped layer: judged by Closed, not compared with predicted marks',
     ]
     replay = json.load(open(a.replay))['replay'] if a.replay else None
 
     items = []       # dict(id, kind 'case'|'corpus', case, cdecl, src, shapes, file)
 
+    def corpus_pass():
+        """C->S corpus: every GIR file of tests/scanner and gir/, judged by TLC in one batch.  Runs in a thread next to
+        the model checking (it needs nothing from it); touches no bookkeeping key the main thread uses meanwhile."""
+        corpus_obs, ids = [], {}
+        corpus_dirs = [os.path.join(REPO, 'tests', 'scanner'), os.path.join(REPO, 'gir')]
+        allg = P.load_gir_dirs(corpus_dirs + [os.path.join(S.DATA, 'gir')])
+        by_ns, defs_ns = {}, {}
+        for f, tree, ns, d in allg:           # corpus directories take precedence over the harness stubs
+            if ns not in by_ns:
+                by_ns[ns], defs_ns[ns] = tree, d
+        stub_ns = set(ns for f, t, ns, d in allg if f.startswith(S.DATA) and by_ns[ns] is t)
+        for f, tree, ns, d in allg:
+            if f.startswith(S.DATA) or not f.endswith('.gir'):
+                continue
+            if replay and not (replay['kind'] == 'corpus' and replay['file'] == os.path.relpath(f, REPO)):
+                continue
+            inc = P.included_closure(tree, by_ns)
+            wanted = P.includes_of(tree)
+            o = P.project(tree, 'corpus:' + os.path.relpath(f, REPO), [(n, defs_ns[n]) for n in inc],
+                          partial=sorted(stub_ns & set(inc)), inferred=False)
+            o['marks'] = []
+            o['model'] = dict(nodes=[], order=[], names=[])
+            corpus_obs.append(o)
+            ids[o['id']] = dict(id=o['id'], kind='corpus', file=os.path.relpath(f, REPO), cdecl=True,
+                                src='repository file', missing=[n for n in wanted if n not in by_ns])
+        rj, ex = ck.tlc_verdict('IntrospectTrace', corpus_obs, chunk=1000, timeout=1500) if corpus_obs else ([], {})
+        return corpus_obs, ids, rj, ex
+
+    # (on a capped machine - VERIF_NCPU - one TLC at a time: the corpus pass then runs after the scans instead)
+    corpus_future = ThreadPoolExecutor(max_workers=1).submit(corpus_pass) if NCPU >= 8 else None
+
     if not replay:
-        # ---------------------------------------------------------------- 1. model checking
+        # ---------------------------------------------------------------- 1. model checking (all configurations side by side)
         mcs = MC_QUICK + ([] if ck.quick else MC_THOROUGH)
-        for cfg, what in mcs:
-            r = ck.tlc_mc('IntrospectMC', 'Introspect_%s.cfg' % cfg, timeout=900, coverage=False,
-                          label='exhaustive: %s; invariant NoUnknownViolation' % what)
-            for c in exported_cases(r['out'], 'TLC Introspect_%s.cfg' % cfg):
-                c['id'] = 'mc-%s-%d' % (cfg, len(items))
-                c['kind'] = 'case'
-                items.append(c)
-        r = ck.tlc_mc('IntrospectMC', 'Introspect_%s.cfg' % STEP[0], timeout=600, coverage=True,
-                      label='exhaustive: %s' % STEP[1])
+        wits = WITNESS_QUICK + ([] if ck.quick else WITNESS_THOROUGH)
+        w = min(3 if ck.quick else 4, NCPU)          # TLC workers per configuration (NCPU honours VERIF_NCPU)
+        jobs = [dict(cfg=c, label='exhaustive: %s; invariant NoUnknownViolation' % what, workers=w) for c, what in mcs]
+        jobs.append(dict(cfg=STEP[0], label='exhaustive: %s' % STEP[1], coverage=True, workers=w, heap='4g',
+                         disabled_actions=('Finish', )))       # Stepwise = TRUE: the one-step composition is switched off
+        for c, shape, whatif in wits:
+            jobs.append(dict(cfg=c, expect_ok=False, workers=min(2, NCPU),
+                             label='witness search%s: a final state violating Closed with shape %s'
+                                   % ((' in the what-if variant (%s)' % whatif) if whatif else '', shape)))
+        big = ['t1', 't2', 't3', 't5', 't6', 't7', 't4', 'perm3']          # longest first
+        jobs.sort(key=lambda j: big.index(j['cfg']) if j['cfg'] in big else len(big))
+        # on 16 cores: quick = all eight JVMs at once (small state spaces, the JVM start dominates), thorough = four at a
+        # time; with VERIF_NCPU=3: one at a time
+        res = mc_many(ck, jobs, concurrent=max(1, (NCPU // 2 if ck.quick else NCPU // 4)))
         ck.cov['exhaustive'] = True
-        for cfg, shape in WITNESS_QUICK + ([] if ck.quick else WITNESS_THOROUGH):
-            r = ck.tlc_mc('IntrospectMC', 'Introspect_%s.cfg' % cfg, timeout=600, coverage=False, expect_ok=False,
-                          label='witness search: a final state violating Closed with shape ' + shape)
+        for c, what in mcs:
+            for e in exported_cases(res[c]['out'], 'TLC Introspect_%s.cfg' % c):
+                e['id'] = 'mc-%s-%d' % (c, len(items))
+                e['kind'] = 'case'
+                items.append(e)
+        never = [x for x in WALK_ACTIONS if res[STEP[0]]['coverage'].get(x, (0, 0))[1] == 0]
+        if never:
+            raise MachineryError('walk actions never taken in Introspect_%s.cfg: %s' % (STEP[0], never))
+        for c, shape, whatif in wits:
+            r = res[c]
             if r.get('violated') != 'NoWitness':
-                raise MachineryError('model has no witness for shape %s (cfg %s): %s' % (shape, cfg, r.get('error')))
-            w = case_from_trace(r['out'])
-            if not w:
-                raise MachineryError('cannot parse the witness trace of %s' % cfg)
-            items.append(dict(id='witness-' + cfg, kind='case', case=w[0], cdecl='@' not in shape, shapes=[shape],
-                              verdict='viol', src='TLC counterexample Introspect_%s.cfg (%s)' % (cfg, ' > '.join(w[1]))))
-        # ---------------------------------------------------------------- 2b. random graphs beyond the bound
-        nrand = 150 if ck.quick else 3000
-        for i in range(nrand):
-            n = ck.rng.randint(4, 10)
-            items.append(dict(id='rand-%d' % i, kind='case', case=random_case(ck.rng, n), cdecl=True, shapes=[],
-                              verdict='?', src='random graph of %d nodes, seed %d' % (n, ck.seed)))
+                raise MachineryError('model has no witness for shape %s (cfg %s): %s' % (shape, c, r.get('error')))
+            wt = case_from_trace(r['out'])
+            if not wt:
+                raise MachineryError('cannot parse the witness trace of %s' % c)
+            items.append(dict(id='witness-' + c, kind='case', case=wt[0], cdecl='@' not in shape, shapes=[shape], whatif=whatif,
+                              verdict='viol', src='TLC counterexample Introspect_%s.cfg (%s)' % (c, ' > '.join(wt[1]))))
         # a stratified subset of the closed cases TLC exported (all violating ones are kept)
         keep, strata = [], {}
         for it in items:
@@ -191,6 +342,15 @@ def run():
             if strata[key] <= (2 if ck.quick else 6):
                 keep.append(it)
         items = keep
+        # ---------------------------------------------------------------- 2b. beyond the bound: random graphs, feature sweep
+        nrand = 150 if ck.quick else 3000
+        for i in range(nrand):
+            n = ck.rng.randint(4, 10)
+            items.append(dict(id='rand-%d' % i, kind='case', case=random_case(ck.rng, n), cdecl=True, shapes=[],
+                              verdict='?', src='random graph of %d nodes, seed %d' % (n, ck.seed)))
+        for i, c in enumerate(sweep_cases(not ck.quick)):
+            items.append(dict(id='sweep-%d' % i, kind='case', case=c, cdecl=True, shapes=[], verdict='?',
+                              src='cross-reference feature sweep'))
     else:
         if replay['kind'] == 'case':
             items.append(dict(id=replay['id'], kind='case', case=replay['case'], cdecl=replay.get('cdecl', True),
@@ -199,49 +359,42 @@ def run():
     # -------------------------------------------------------------------- 2. S->C: run the real scanner
     obs, by_id = [], {}
     dep = [(n, P.defs_of(S.girabs(open(os.path.join(S.DATA, 'gir', n + '-2.0.gir'), 'rb').read()))[1]) for n in PARTIAL]
+    refused = 0
     for it in items:
+        for nd in it['case']['nodes']:
+            nd.setdefault('ren', 0)
+            nd.setdefault('host', 0)
         rr = P.render(it['case'], S)
         try:
-            res = S.scan(rr['symbols'], rr['comments'], dump_xml=rr['dump_xml'], warnings=False)
+            res_ = S.scan(rr['symbols'], rr['comments'], dump_xml=rr['dump_xml'], warnings=False)
         except (SystemExit, Exception) as e:      # the scanner refused the input: no GIR, nothing to judge
-            ck.notes.append('scanner raised %r on %s (%s)' % (e, it['id'], brief(it['case'])))
+            refused += 1
+            if refused <= 8:
+                ck.notes.append('scanner raised %r on %s (%s)' % (e, it['id'], brief(it['case'])))
             continue
-        tree = S.girabs(res.xml)
-        o = P.project(tree, it['id'], dep, partial=PARTIAL)
+        tree = S.girabs(res_.xml)
+        o = P.project(tree, it['id'], dep, partial=PARTIAL, inferred=True)     # the renderer writes no accessor annotations
         o['marks'] = P.marks_of(tree)
         o['model'] = dict(nodes=it['case']['nodes'], order=it['case']['order'], names=rr['names'])
         obs.append(o)
-        it['xml'] = res.xml
+        it['xml'] = res_.xml
         by_id[it['id']] = it
         ck.count()
-    # -------------------------------------------------------------------- 3. C->S corpus
-    corpus_dirs = [os.path.join(REPO, 'tests', 'scanner'), os.path.join(REPO, 'gir')]
-    allg = P.load_gir_dirs(corpus_dirs + [os.path.join(S.DATA, 'gir')])
-    by_ns, defs_ns = {}, {}
-    for f, tree, ns, d in allg:           # corpus directories take precedence over the harness stubs
-        if ns not in by_ns:
-            by_ns[ns], defs_ns[ns] = tree, d
-    stub_ns = set(ns for f, t, ns, d in allg if f.startswith(S.DATA) and by_ns[ns] is t)
-    for f, tree, ns, d in allg:
-        if f.startswith(S.DATA) or not f.endswith('.gir'):
-            continue
-        if replay and not (replay['kind'] == 'corpus' and replay['file'] == os.path.relpath(f, REPO)):
-            continue
-        inc = P.included_closure(tree, by_ns)
-        wanted = P.includes_of(tree)
-        o = P.project(tree, 'corpus:' + os.path.relpath(f, REPO), [(n, defs_ns[n]) for n in inc],
-                      partial=sorted(stub_ns & set(inc)))
-        o['marks'] = []
-        o['model'] = dict(nodes=[], order=[], names=[])
-        obs.append(o)
-        by_id[o['id']] = dict(id=o['id'], kind='corpus', file=os.path.relpath(f, REPO), cdecl=True,
-                              src='repository file', missing=[n for n in wanted if n not in by_ns])
-        ck.count()
+    ck.cov['inputs_refused_by_scanner'] = refused
+    # -------------------------------------------------------------------- 3. C->S corpus (started before the model checking)
+    corpus_obs, corpus_ids, rejected_corpus, ex_corpus = corpus_future.result() if corpus_future else corpus_pass()
+    by_id.update(corpus_ids)
+    ck.count(len(corpus_obs))
 
-    if not obs:
+    if not obs and not corpus_obs:
         raise MachineryError('nothing to judge')
     # -------------------------------------------------------------------- 4. verdicts by TLC
-    rejected, exercised = ck.tlc_verdict('IntrospectTrace', obs, chunk=1500, timeout=900)
+    rejected, ex_gen = list(rejected_corpus), {}
+    if obs:
+        rj, ex_gen = ck.tlc_verdict('IntrospectTrace', obs, chunk=1000, timeout=1500)
+        rejected += rj
+    ck.cov['clauses_exercised_by_generated_inputs'] = ex_gen
+    ck.cov['clauses_exercised_by_corpus'] = ex_corpus
     ndrift, ndiag = 0, 0
     drift_ids = set()
     for oid, clause, shape, element in rejected:
@@ -259,41 +412,44 @@ def run():
             continue
         if not it['cdecl']:
             ndiag += 1      # TLC candidate under an order no C header can declare: reproduced, not judged
-            if ndiag <= 6:
+            if ndiag <= 8:
                 ck.notes.append('candidate reproduced under a use-before-declaration order (outside the quantifier): %s %s %s [%s]'
                                 % (clause, shape, element, brief(it['case'])))
             continue
-        sig = dict(clause=clause, shape=shape)
+        feature = features_of(it['case'], element)
+        sig = dict(clause=clause, shape=shape, feature=feature)
         ck.violation(sig, '%s violated (%s) at %s\n  case %s: %s\n  from %s' % (clause, shape, element, oid, brief(it['case']), it['src']),
                      dict(kind='case', id=oid, case=it['case'], cdecl=it['cdecl'], clause=clause, shape=shape, element=element,
                           gir=it.get('xml', '')[:20000]))
-    # model counterexamples the real code does not reproduce: spec drift, reported as notes
+    # model counterexamples the real code does not reproduce
     rej_ids = set(r[0] for r in rejected if r[1] != 'DRIFT')
     for it in items:
         if it.get('verdict') == 'viol' and it['id'] in by_id and it['id'] not in rej_ids:
-            ck.notes.append('model counterexample not reproduced by the real code: %s %s' % (it['shapes'], brief(it['case'])))
+            if it.get('whatif'):
+                ck.notes.append('what-if witness (%s) is NOT reproduced by the current code, as expected: %s %s'
+                                % (it['whatif'], it['shapes'], brief(it['case'])))
+            else:
+                ck.notes.append('model counterexample not reproduced by the real code (spec drift): %s %s' % (it['shapes'], brief(it['case'])))
     ck.cov['drift_records'] = ndrift
     ck.cov['drifted_cases'] = len(drift_ids)
     ck.cov['unrealizable_order_candidates_reproduced'] = ndiag
-    ck.cov['cases'] = dict(scanned=sum(1 for o in obs if not o['id'].startswith('corpus:')),
-                           corpus=sum(1 for o in obs if o['id'].startswith('corpus:')),
+    ck.cov['cases'] = dict(scanned=len(obs), corpus=len(corpus_obs),
                            tlc_violating=sum(1 for it in items if it.get('verdict') == 'viol'),
                            tlc_closed=sum(1 for it in items if it.get('verdict') == 'ok'),
-                           random=sum(1 for it in items if it['id'].startswith('rand-')))
+                           random=sum(1 for it in items if it['id'].startswith('rand-')),
+                           feature_sweep=sum(1 for it in items if it['id'].startswith('sweep-')))
     ck.cov['corpus_missing_includes'] = {v['file']: v['missing'] for v in by_id.values() if v['kind'] == 'corpus' and v.get('missing')}
     ck.cov['rule'] = ('an evaluation = one GIR (a scanned generated namespace or a repository file) judged by TLC; non-trivial = '
                       'the GIR contains at least one element marked introspectable="0" or a rejected element; distinct by case')
-    for o in obs:
+    for o in obs + corpus_obs:
         if any(m['marked'] for m in o['marks']) or any(u['marked'] for u in o['uses']):
             ck.nontrivial(o['id'])
-    for it in items[:2]:
+    for it in items[:2] + [x for x in items if x['id'].startswith('sweep-')][:1]:
         ck.sample(dict(id=it['id'], src=it['src'], case=brief(it['case'])))
-    core = ['UsesResolve', 'UsesIntrospectable', 'NoVarargs', 'NoLongLong', 'TransferStated', 'ScopeStated', 'ElementTyped',
-            'IndexInRange', 'TypeStructMutual', 'AccessorAgree', 'InvokerIsMethod', 'ShadowsMutual']
     if not replay:
-        vac = [c for c in core if not exercised.get(c)]
+        vac = [c for c in CORE if not ex_gen.get(c)]
         if vac:
-            raise MachineryError('clauses never exercised: %s' % vac)
+            raise MachineryError('clauses never exercised by generated inputs: %s' % vac)
     return ck.finish()
 
 
